@@ -45,6 +45,13 @@ mod protocol;
 mod query;
 mod record;
 
+#[cfg(libp2p_verif)]
+pub use handler::verif_c42;
+#[cfg(libp2p_verif)]
+pub use handler::verif_c43;
+#[cfg(libp2p_verif)]
+pub use protocol::verif_c44;
+
 mod proto {
     #![allow(unreachable_pub)]
     include!("generated/mod.rs");
@@ -69,9 +76,17 @@ pub use behaviour::{
 pub use kbucket::{
     Distance as KBucketDistance, EntryView, KBucketRef, Key as KBucketKey, NodeStatus, U256,
 };
+#[cfg(libp2p_verif)]
+pub use kbucket::verif_c40;
+#[cfg(libp2p_verif)]
+pub use kbucket::verif_c38;
+#[cfg(libp2p_verif)]
+pub use kbucket::verif_c37;
 use libp2p_swarm::StreamProtocol;
 pub use protocol::{ConnectionType, KadPeer};
 pub use query::QueryId;
+#[cfg(libp2p_verif)]
+pub use query::verif_c39;
 pub use record::{Key as RecordKey, ProviderRecord, Record, store};
 
 /// The `k` parameter of the Kademlia specification.
